@@ -83,6 +83,12 @@ structure Out where
   doubled : Bool := false
   extra : List (String × Json) := []
 
+/-- declared domain / target shapes (per sub-domain) of the operator, compared with `op.domain` / `op.target` -/
+def withShapes (o : Out) (dsh tsh : List (List Nat)) : Out :=
+  { o with extra := o.extra ++ [("dshapes", jList jNats dsh), ("tshapes", jList jNats tsh)] }
+
+def shapesOf (doms : List (SubDom CQ)) : List (List Nat) := doms.map (·.shape)
+
 def twoModes (M : Coo CQ) : Out := { modes := [(1, M), (2, adj CQ.conj M)] }
 /-- all four modes of an operator whose inverse is `Minv` -/
 def fourModes (M Minv : Coo CQ) : Out :=
@@ -124,13 +130,14 @@ def handleCls (cls : String) (j : Json) : E Out := do
     let doms ← parseDoms j
     let sp ← parseSpacesI (← optSpaces j "spaces") doms.length
     let p ← req (fInt? j "power")
-    pure (twoModes (contraction doms sp p))
+    pure (withShapes (twoModes (contraction doms sp p)) (shapesOf doms)
+      (((List.range doms.length).filter fun i => !sp.contains i).map fun i => (doms.getD i ⟨[], .scalar 1⟩).shape))
   | "WeightApplier" =>
     let doms ← parseDoms j
     let spo ← optSpaces j "spaces"
     let sp ← parseSpacesI spo doms.length
     let p ← req (fInt? j "power")
-    pure (fourModes (weightApplier doms sp p) (weightApplier doms sp (-p)))
+    pure (withShapes (fourModes (weightApplier doms sp p) (weightApplier doms sp (-p))) (shapesOf doms) (shapesOf doms))
   | "DOFDistributor" =>
     let doms ← parseDoms j
     let space ← inferSpace j doms.length
@@ -141,7 +148,8 @@ def handleCls (cls : String) (j : Json) : E Out := do
     let d ← req doms[space]?
     let wgt := binWeights nbin dofdex (fun p => d.w p)
     if wgt.any CQ.isZero then throw "ValueError"
-    pure { twoModes (distributor pre post nbin dofdex) with extra := [("wgt", jList jCQ wgt)] }
+    pure (withShapes { twoModes (distributor pre post nbin dofdex) with extra := [("wgt", jList jCQ wgt)] }
+      ((shapesOf doms).set space [nbin]) (shapesOf doms))
   | "MaskOperator" =>
     let flags ← req ((field? j "flags").bind boolList?)
     pure (twoModes (mask flags))
@@ -162,7 +170,8 @@ def handleCls (cls : String) (j : Json) : E Out := do
     if index.length != d.shape.length then throw "ValueError"
     if (index.zip d.shape).any (fun p => p.1 < 0 || p.1 ≥ (p.2 : Int)) then throw "ValueError"
     let (pre, n, post) := prePost doms space.toNat
-    pure (twoModes (fieldInserter pre n post (ravel d.shape (index.map Int.toNat))))
+    pure (withShapes (twoModes (fieldInserter pre n post (ravel d.shape (index.map Int.toNat))))
+      ((shapesOf doms).eraseIdx space.toNat) (shapesOf doms))
   | "TransposeOperator" =>
     let doms ← parseDoms j
     let perm ← req (fNatList? j "indices")
@@ -171,7 +180,7 @@ def handleCls (cls : String) (j : Json) : E Out := do
     let sizes := doms.map SubDom.size
     if prodL (perm.map fun k => sizes.getD k 1) != prodL sizes then throw "ValueError"
     let M : Coo CQ := transpose sizes perm
-    pure (fourModes M (adj CQ.conj M))
+    pure (withShapes (fourModes M (adj CQ.conj M)) (shapesOf doms) (perm.map fun k => (doms.getD k ⟨[], .scalar 1⟩).shape))
   | "SqueezeOperator" =>
     -- doms carry "kind": "RG" | "U" | other; returns the target shapes as an extra
     let dj ← req ((field? j "doms").bind getArr?)
@@ -224,7 +233,8 @@ def handleCls (cls : String) (j : Json) : E Out := do
     let d ← req doms[space]?
     if ns.length != d.shape.length then throw "ValueError"
     if (ns.zip d.shape).any (fun p => p.1 < p.2) then throw "ValueError"
-    pure (twoModes (padder (fullShape doms) (axis0 doms space) ns central))
+    pure (withShapes (twoModes (padder (fullShape doms) (axis0 doms space) ns central)) (shapesOf doms)
+      ((shapesOf doms).set space ns))
   | "RegriddingOperator" =>
     let doms ← parseDoms j
     let space ← inferSpace j doms.length
@@ -233,7 +243,8 @@ def handleCls (cls : String) (j : Json) : E Out := do
     if ns.length != d.shape.length then throw "ValueError"
     if (ns.zip d.shape).any (fun p => p.1 > (p.2 : Int)) then throw "ValueError"
     if ns.any (· ≤ 0) then throw "ValueError"
-    pure (twoModes (regridding qCQ (fullShape doms) (axis0 doms space) (ns.map Int.toNat)))
+    pure (withShapes (twoModes (regridding qCQ (fullShape doms) (axis0 doms space) (ns.map Int.toNat))) (shapesOf doms)
+      ((shapesOf doms).set space (ns.map Int.toNat)))
   | "SliceOperator" =>
     -- new_shape: per sub-domain null | [n_pix per axis]
     let doms ← parseDoms j
@@ -259,9 +270,11 @@ def handleCls (cls : String) (j : Json) : E Out := do
         let ns ← req (natList? nj)
         if (ns.zip d.shape).any (fun p => p.1 > p.2) then throw "ValueError"
         for (npix, n) in ns.zip d.shape do
-          let start := if center then (n - npix) / 2 else 0
-          sel := sel ++ [(List.range npix).map (start + ·)]
-    pure (twoModes (axisSelect (fullShape doms) sel))
+          sel := sel ++ [sliceSel n npix center]
+    let tsh := (doms.zip nsj).map fun dn => match natList? dn.2 with
+      | some ns => ns
+      | none => dn.1.shape
+    pure (withShapes (twoModes (axisSelect (fullShape doms) sel)) (shapesOf doms) tsh)
   | "SplitOperator" =>
     -- sizes: 1-D sub-domain sizes; slices: [[key, [spec per sub-domain (may be shorter)]], …]
     let sizes ← req (fNatList? j "sizes")
@@ -291,7 +304,7 @@ def handleCls (cls : String) (j : Json) : E Out := do
     let L := (idx.headD []).length
     let flat := (List.range L).map fun k => ravel d.shape (idx.map fun ax => ax.getD k 0)
     let (pre, n, post) := prePost doms space
-    pure (twoModes (extractAt pre n post flat))
+    pure (withShapes (twoModes (extractAt pre n post flat)) (shapesOf doms) ((shapesOf doms).set space [L]))
   | "FFTShiftOperator" =>
     let doms ← parseDoms j
     let sp ← parseSpacesI (← optSpaces j "spaces") doms.length
@@ -299,7 +312,14 @@ def handleCls (cls : String) (j : Json) : E Out := do
     let sh := fullShape doms
     let M : Coo CQ := fftshift sh axes false
     let Mi : Coo CQ := fftshift sh axes true
-    pure { modes := [(1, M), (2, Mi), (4, Mi), (8, M)] }
+    pure (withShapes { modes := [(1, M), (2, Mi), (4, Mi), (8, M)] } (shapesOf doms) (shapesOf doms))
+  | "MatrixProductSpaces" =>
+    let sizes ← req (fNatList? j "sizes")
+    let sp ← req (fNatList? j "spaces")
+    let m ← req ((field? j "m").bind cqList?)
+    let n := prodL (sp.map fun s => sizes.getD s 1)
+    if m.length != n * n then throw "ValueError"
+    pure (twoModes (matrixProductSp sizes sp m))
   | "MatrixProductOperator" =>
     let pre ← req (fNat? j "pre")
     let n ← req (fNat? j "n")
@@ -362,7 +382,7 @@ def handleCls (cls : String) (j : Json) : E Out := do
         pure sp
     let M : Coo CQ := diagonalOp sizes sp d
     let Mi : Coo CQ := diagonalOp sizes sp dinv
-    pure (fourModes M Mi)
+    pure (withShapes (fourModes M Mi) (shapesOf doms) (shapesOf doms))
   | "ScalingOperator" =>
     let n ← req (fNat? j "n")
     let f ← req ((field? j "f").bind getCQ?)
